@@ -340,7 +340,7 @@ func (t *Transport) run() {
 						length--
 						if cq, ok := t.idleConns[cs.addr]; ok {
 							if !t.idleConns[cs.addr].Enqueue(pc) {
-								pc.Close()
+								pc.shut()
 							}
 						} else {
 							cq = newConnQueue(t.MaxIdleConnsPerHost, cs.addr)
@@ -360,7 +360,7 @@ func (t *Transport) run() {
 				for i := 0; i < length; i++ {
 					if cq.Rear().value.lastTime.Add(t.IdleConnTimeout).Before(time.Now()) {
 						pc := cq.Dequeue()
-						pc.Close()
+						pc.shut()
 					} else {
 						cq.Rear().value.Ping()
 					}
@@ -390,7 +390,7 @@ func (t *Transport) CloseIdleConnections() {
 				cs.Delete(i)
 				i--
 				length--
-				pc.Close()
+				pc.shut()
 			}
 		}
 		if len(cs.Conns) == 0 {
@@ -402,7 +402,7 @@ func (t *Transport) CloseIdleConnections() {
 		length := cq.Length()
 		for i := 0; i < length; i++ {
 			pc := cq.Dequeue()
-			pc.Close()
+			pc.shut()
 		}
 		delete(t.idleConns, cq.addr)
 	}
@@ -422,7 +422,7 @@ func (t *Transport) Close() error {
 		length := len(cs.Conns)
 		for i := 0; i < length; i++ {
 			pc := cs.Conns[i]
-			pc.Close()
+			pc.shut()
 		}
 	}
 	t.conns = make(map[string]*conns)
@@ -431,7 +431,7 @@ func (t *Transport) Close() error {
 		if length > 0 {
 			for i := 0; i < length; i++ {
 				pc := cq.Dequeue()
-				pc.Close()
+				pc.shut()
 			}
 		}
 		delete(t.idleConns, cq.addr)
@@ -456,6 +456,16 @@ type persistConn struct {
 // unused reports whether no call is outstanding or about to be sent.
 func (pc *persistConn) unused() bool {
 	return atomic.LoadInt32(&pc.uses) == 0 && pc.NumCalls() == 0
+}
+
+// shut closes the connection on behalf of the pool. It takes pc.mu so that it
+// also waits for a close that checkPersistConnErr has in progress: when shut
+// returns the socket is closed, whoever closed it, and only then may the
+// pool forget the connection and dial another one.
+func (pc *persistConn) shut() {
+	pc.mu.Lock()
+	pc.Close()
+	pc.mu.Unlock()
 }
 
 // release undoes the reservation made by getConn.
